@@ -9,6 +9,7 @@ import (
 	"encoding/json"
 	"fmt"
 	"os"
+	"strings"
 
 	"github.com/trustbloc/sidetree-go/pkg/document"
 	"github.com/trustbloc/sidetree-go/pkg/patch"
@@ -20,6 +21,8 @@ type gOp struct {
 	Kind string `json:"kind"`
 	Path string `json:"path"`
 	From string `json:"from"`
+	// how the members are spelled: plain, From (the from member), Op (the op member), Kind (the operation name)
+	Spell string `json:"spell"`
 }
 
 type gCase struct {
@@ -87,7 +90,21 @@ func guardPatch(doc document.Document, ops []gOp) patch.Patch {
 	l := []interface{}{}
 
 	for _, o := range ops {
-		m := map[string]interface{}{"op": o.Kind, "path": o.Path}
+		opName, fromName, kind := "op", "from", o.Kind
+
+		switch o.Spell {
+		case "From":
+			fromName = "From"
+		case "Op":
+			opName = "Op"
+		case "Kind":
+			kind = strings.ToUpper(kind[:1]) + kind[1:]
+			if len(o.Path)%2 == 1 {
+				kind = strings.ToUpper(kind)
+			}
+		}
+
+		m := map[string]interface{}{opName: kind, "path": o.Path}
 
 		switch o.Kind {
 		case "add", "replace":
@@ -95,7 +112,7 @@ func guardPatch(doc document.Document, ops []gOp) patch.Patch {
 		case "test":
 			m["value"] = 1 // equals /other/a and /public~1Key-less documents' nothing else: a test never writes
 		case "move", "copy":
-			m["from"] = o.From
+			m[fromName] = o.From
 		}
 
 		l = append(l, m)
@@ -115,6 +132,10 @@ func guardPatch(doc document.Document, ops []gOp) patch.Patch {
 func guardKey(kind string, ops []gOp) string {
 	s := kind
 	for _, o := range ops {
+		if o.Spell != "" && o.Spell != "plain" {
+			s += ":respelled-" + o.Spell
+		}
+
 		s += fmt.Sprintf(":%s(%s", o.Kind, o.Path)
 		if o.Kind == "move" || o.Kind == "copy" {
 			s += "<-" + o.From
